@@ -80,4 +80,11 @@ instance instDecEqJVal : DecidableEq JVal := fun a b =>
   if h : beq a b = true then isTrue (beq_eq a b h)
   else isFalse (fun e => h (e ▸ beq_refl a))
 
+/-- decidable equality of results (core has none for `Except`); used by the `decide`d examples -/
+instance instDecEqExcept {ε α : Type} [DecidableEq ε] [DecidableEq α] : DecidableEq (Except ε α)
+  | .ok a, .ok b => if h : a = b then isTrue (by rw [h]) else isFalse (fun e => h (by injection e))
+  | .error a, .error b => if h : a = b then isTrue (by rw [h]) else isFalse (fun e => h (by injection e))
+  | .ok _, .error _ => isFalse (fun e => by cases e)
+  | .error _, .ok _ => isFalse (fun e => by cases e)
+
 end Sonic.Proofs.MergeDecEq
